@@ -117,8 +117,9 @@ AxFrom(t, K, i) ==
     ELSE AxFrom(t, K, i + 1)
 JAxmap(t) ==
   LET K == [i \in 1..Len(t.knots) |-> <<Rt(t.knots[i][1]), Rt(t.knots[i][2])>>] IN
-  IF t.discrete = 0 /\ ~(Functional(K) /\ WeaklyIncreasing(K)) THEN <<"malformed:axmap-not-monotone">>
-  ELSE IF t.discrete = 0 /\ (t.strict = 1) # StrictlyIncreasing(K) THEN <<"malformed:axmap-strict-flag">>
+  \* monotone maps: weakly increasing, or strictly decreasing (a mirrored axis); Fwd / BwdSet are direction-agnostic
+  IF t.discrete = 0 /\ ~(Functional(K) /\ (WeaklyIncreasing(K) \/ StrictlyDecreasing(K))) THEN <<"malformed:axmap-not-monotone">>
+  ELSE IF t.discrete = 0 /\ (t.strict = 1) # (StrictlyIncreasing(K) \/ (Len(K) >= 2 /\ StrictlyDecreasing(K))) THEN <<"malformed:axmap-strict-flag">>
   ELSE AxFrom(t, K, 1)
 
 (* ---- document trees ------------------------------------------------------------- *)
